@@ -146,7 +146,10 @@ def run_workers(prop_id, tier, seed, variant, builddir, repo, outdir, budget, ca
             key, excerpt = parse_crash(text, rc)
             crashes.append({"shard": s, "key": key, "case": case, "excerpt": excerpt, "rc": rc})
             st = state[s]
-            if case is not None and replay_case is None and st["attempt"] < 40:
+            if key.startswith("hang/"):
+                st["hangs"] = st.get("hangs", 0) + 1
+            # a shard that keeps hanging is not restarted: each hang costs a full case timeout
+            if case is not None and replay_case is None and st["attempt"] < 40 and st.get("hangs", 0) < 2:
                 # restart after the last durable result, skipping the cases that killed a worker
                 last = -1
                 rp = os.path.join(outdir, f"result-{s}-{st['attempt']}.json")
